@@ -50,7 +50,7 @@ fn main() {
         "C16" => gen::c16(&mut out, tier, &mut rng, &mut st),
         "C17" => gen::c17(&mut out, tier, &mut rng, &mut st),
         "C18" => gen::c18(&mut out, tier, &mut rng, &mut st),
-        "C02" => bddprops::c02(&mut out, tier, &mut rng, &mut st),
+        "C02" => { bddprops::c02(&mut out, tier, &mut rng, &mut st); formula::c02_lang(&mut out, tier, &mut rng, &mut st) }
         "C03" => bddprops::c03(&mut out, tier, &mut rng, &mut st),
         "C04" => { bddprops::c04(&mut out, tier, &mut rng, &mut st); formula::c04_lang(&mut out, tier, &mut rng, &mut st) }
         "C05" => { bddprops::c05(&mut out, tier, &mut rng, &mut st); formula::c05_lang(&mut out, tier, &mut rng, &mut st) }
